@@ -11,7 +11,7 @@ LEVEL = "exploration"
 RULE = (
     "A case = a population of 2-7 instances drawn from {plain class, value-equal + hashable, value-equal without "
     "__hash__, expression-builder equality (== returns a truthy node), equality that raises on foreign operands, list subclass (receiver named 'me'), dict subclass (receiver named 'this'), subclass inheriting the "
-    "method, subclass overriding it, subclass whose method uses class-private (mangled) names, class with a functools.wraps-decorated method (plain, over an already tooled function, applied while a probe was active on the function), class with a property} with small "
+    "method, subclass overriding it, subclass whose method uses class-private (mangled) names, class with a functools.wraps-decorated method (plain, over an already tooled function, applied while a probe was active on the function, applied after a probe on the function was released), class with a property} with small "
     "keys so that equal-but-distinct receivers occur, 1-3 selectors (often on receivers sharing one method; some activated part-way through the history, some deactivated - most recent first - while calls go on) from {Cls.meth > v, "
     "obj.meth > v, box.holder.obj.meth > v (dotted path), objI.relay > objJ.meth > v (two bound methods on one path, both receivers usually named self), sweep > obj.meth > v (the receiver condition sits in an inner call of a call path; sweep calls the method on every instance), decorated method through class or object, property through "
     "the class}, and a random sequence of 4-14 calls over the population plus calls of a module-level function that "
@@ -131,6 +131,18 @@ class DecoLate:
 with probing("DecoLate.meth > v"):
     DecoLate.meth = deco(DecoLate.meth)
 
+class DecoAfter:
+    """the decorator is applied after a probe on the function has come and gone"""
+    def __init__(self, k):
+        self.k = k
+    def meth(self, x):
+        v = x - 4 * self.k
+        return v
+
+with probing("DecoAfter.meth > v"):
+    pass
+DecoAfter.meth = deco(DecoAfter.meth)
+
 class Prop:
     def __init__(self, k):
         self.k = k
@@ -159,7 +171,7 @@ def sweep(objs, x):
     return out
 '''
 PLAIN_FAMILY = ("Plain", "Eq", "EqNoHash", "Sub", "Over", "EqExpr", "EqSloppy", "Priv")
-KINDS = ["Plain", "Eq", "EqNoHash", "Sub", "Over", "L", "D", "Deco", "Prop", "EqExpr", "EqSloppy", "DecoTooled", "DecoLate", "Priv"]
+KINDS = ["Plain", "Eq", "EqNoHash", "Sub", "Over", "L", "D", "Deco", "Prop", "EqExpr", "EqSloppy", "DecoTooled", "DecoLate", "Priv", "DecoAfter"]
 RECV = {"L": "me", "D": "this"}
 
 
@@ -186,7 +198,7 @@ def func_of(ns, kind):
     """The function object a call on an instance of `kind` executes."""
     if kind in ("Plain", "Eq", "EqNoHash", "Sub", "EqExpr", "EqSloppy"):
         return ns["Plain"].__dict__["meth"]
-    if kind in ("Deco", "DecoTooled", "DecoLate"):
+    if kind in ("Deco", "DecoTooled", "DecoLate", "DecoAfter"):
         return ns[kind].__dict__["meth"].__wrapped__
     if kind == "Prop":
         return ns["Prop"].__dict__["pval"].fget
@@ -208,6 +220,8 @@ def expected_value(kind, k, x):
         return x - 2 * k
     if kind == "DecoLate":
         return x - 3 * k
+    if kind == "DecoAfter":
+        return x - 4 * k
     if kind == "Prop":
         return k * 2 + 1
     return x + k
